@@ -692,3 +692,29 @@ pub fn deploy_gateway_atomic<'a>(
     let id = factory.deploy(env, AxelarGateway, salt, args)?;
     Ok(Gw { client: AxelarGatewayClient::new(env, &id), id, owner, operator, domain })
 }
+
+/// deterministic pseudo-random bytes derived from a case-supplied seed (not an RNG of our own:
+/// the seed is part of the generated case, so shrinking and replay see the same bytes)
+pub fn seeded_bytes(seed: u64, len: usize) -> std::vec::Vec<u8> {
+    let mut x = seed ^ 0x9E37_79B9_7F4A_7C15;
+    let mut out = std::vec::Vec::with_capacity(len);
+    while out.len() < len {
+        x ^= x << 13;
+        x ^= x >> 7;
+        x ^= x << 17;
+        if x == 0 {
+            x = 0x1234_5678_9abc_def1;
+        }
+        for b in x.to_le_bytes() {
+            if out.len() < len {
+                out.push(b);
+            }
+        }
+    }
+    out
+}
+
+/// entries owned by a contract, without TTLs (state, not rent bookkeeping)
+pub fn state_of(env: &Env, contract: &Address) -> std::vec::Vec<(xdr::LedgerKey, xdr::LedgerEntry)> {
+    snapshot_of(env, contract).into_iter().map(|(k, e, _)| (k, e)).collect()
+}
